@@ -1050,10 +1050,14 @@ static void prop_c17(const vf::Case& c, Ctx& ctx)
                                     }
                                     else if (kind == "add-notnull")
                                     {
-                                        if (col[3] == "0" && col[5] == "0")
+                                        // nullability alone (the stored text is edited, no row is checked, so no default is needed), on
+                                        // key columns as well: "id INTEGER PRIMARY KEY NOT NULL" declares a different column than the schema's
+                                        if (col[3] == "0")
                                         {
-                                            part += " NOT NULL DEFAULT 0";
+                                            part += " NOT NULL";
                                             done = true;
+                                            if (col[5] != "0")
+                                                ctx.label("add-notnull:key-column");
                                         }
                                         desc = "ADD NOT NULL to " + tn + "." + cn;
                                     }
@@ -1224,7 +1228,7 @@ static std::vector<C17Tuple> c17_build_enum(bool all_kinds)
     };
     // quick tier: whole-element kinds for every table / view / index, and the three column kinds that need no precondition
     std::set<std::string> wanted = {"drop-table", "rename-table", "add-table", "drop-view", "rename-view", "add-view", "drop-index", "flip-unique",
-                                    "drop-column", "rename-column", "change-type"};
+                                    "drop-column", "rename-column", "change-type", "add-notnull"};
     auto want = [&](const std::string& k) { return all_kinds || wanted.count(k); };
     for (uint64_t si = 0; si < schemas_ext().size(); ++si)
     {
